@@ -18,17 +18,28 @@
                   bare word equal to the name that PostgreSQL would neither fold nor read as a keyword;
     a name inside a comment is the comment text between the fixed prefix and suffix, with `\\` `\n` `\r` standing for
                   backslash, LF, CR (a comment token cannot contain a raw line break: the lexer ends it there);
-    <cell>        NULL ⇔ nil or missing;  TRUE/FALSE;  integers as `-`? number with the decimal text;
+    <cell>        a value of the column's type T (`value F T`):
+                  NULL ⇔ nil or missing;
+                  when T is json/jsonb every non-NULL value — string, number, boolean, array, object — as ONE string constant
+                  holding valid JSON with that value;  otherwise
+                  TRUE/FALSE;  integers as `-`? number with the decimal text;
                   finite floats as `-`? number, NaN/±Inf as a quoted spelling PostgreSQL's float input accepts;
-                  strings as one string constant with exactly the stored bytes;
+                  strings as one string constant whose content is the stored bytes up to the first NUL (a PostgreSQL string
+                  is a C string: textout/charout deliver that prefix, and no SQL text can hold a NUL — Spec.SqlLex);
                   objects as one string constant whose content is valid JSON with that value (Spec.Json);
-                  non-empty arrays as ARRAY [ <cell> , … ] recursively (at least one element: PostgreSQL rejects `ARRAY[]`,
-                  "cannot determine type of empty array"); the empty array as the string constant '{}' (array input
-                  syntax, accepted by a column of any array type);
-                  in a json/jsonb column every non-NULL value as one string constant holding valid JSON with that value;
+                  non-empty arrays as ARRAY [ <element> , … ] (at least one element: PostgreSQL rejects `ARRAY[]`,
+                  "cannot determine type of empty array"), where, when T is an array type of pg_type (`pgArrayTypes`), every
+                  <element> is a value of T's element type typelem (so an element of a jsonb[] column is a JSON document in
+                  one string constant: '"abc"', '5', '[]') and the constructor is followed by the cast `:: <typname of T>`:
+                  without it PostgreSQL resolves ONE element type from the elements (select_common_type) — ARRAY[1, 'NaN']
+                  fails in int4in, ARRAY['"a"', '5'] is text[], which is not assignable to jsonb[] / uuid[] / date[] … —
+                  with it transformTypeCast hands the target type down to transformArrayExpr (nested constructors
+                  included) and every element is converted by the element type's input function on its own;
+                  when T is not an array type the elements are values of the unknown type 0 and no cast is required;
+                  the empty array as the string constant '{}' (array input syntax, accepted by a column of any array type);
     <type words>  one or more bare words (the column type is not stored data: pgread takes it from a fixed table).
   Nothing may follow.  Since every name and value is matched against exactly one token (or the fixed token group of a
-  signed number / ARRAY[…]) and the statement skeleton around them is fixed, no name or value can end its token early,
+  signed number / ARRAY[…] / ARRAY[…]::name) and the statement skeleton around them is fixed, no name or value can end its token early,
   start another statement or leave a comment.
 -/
 import PgVerif.Spec.SqlLex
@@ -105,39 +116,74 @@ def floatCell (nonFinite nan neg : Bool) (text : Bytes) (ts : Toks) : Option Tok
   if nonFinite then one (fun t => match t with | .str s => Json.nonFiniteSpelling nan neg s | _ => false) ts
   else signedNum text ts
 
-mutual
-/-- the tokens of one value -/
-def value (F : FloatFmt) : GoVal → Toks → Option Toks
-  | .nil, ts => one (isWord "null") ts
-  | .bool b, ts => one (isWord (if b then "true" else "false")) ts
-  | .int i, ts => signedNum (decInt i) ts
-  | .f64 b, ts => floatCell (Json.isNonFinite64 b) (b % 2 ^ 52 != 0) (b / 2 ^ 63 % 2 == 1) (F.v64 b) ts
-  | .f32 b, ts => floatCell (Json.isNonFinite32 b) (b % 2 ^ 23 != 0) (b / 2 ^ 31 % 2 == 1) (F.v32 b) ts
-  | .str s, ts => one (fun t => t == .str s) ts
-  | .obj kvs, ts => one (fun t => match t with | .str s => Json.textAgrees F (.obj kvs) s | _ => false) ts
-  | .arr [], ts => one (fun t => t == .str (SqlLex.asc "{}")) ts
-  | .arr (x :: xs), ts =>
-    ((one (isWord "array") ts).bind (one (isOp 91))).bind fun ts => (values F (x :: xs) ts).bind (one (isOp 93))
-/-- one or more values separated by commas -/
-def values (F : FloatFmt) : List GoVal → Toks → Option Toks
-  | [], _ => none
-  | [x], ts => value F x ts
-  | x :: y :: rest, ts => ((value F x ts).bind (one (isOp 44))).bind (values F (y :: rest))
-end
+/-- pg_type.dat (PostgreSQL 12–16), the array types in scope: (oid, typelem, typname).  Scope: the array types whose
+values a dump holds as arrays, i.e. those pgread's type table names (`_line` … `_jsonpath`); for a column of any other
+type — json[] (199), xml[] (143), … included — no array value arises and nothing more is demanded of an ARRAY constructor
+than before.  `Proofs/SqlArrayTypes.lean` checks pgread's arrayElemTypes / TypeName against this table. -/
+def pgArrayTypes : List (Int × Int × String) := [
+  (629, 628, "_line"), (651, 650, "_cidr"), (719, 718, "_circle"), (775, 774, "_macaddr8"), (791, 790, "_money"),
+  (1000, 16, "_bool"), (1001, 17, "_bytea"), (1002, 18, "_char"), (1003, 19, "_name"), (1005, 21, "_int2"),
+  (1006, 22, "_int2vector"), (1007, 23, "_int4"), (1008, 24, "_regproc"), (1009, 25, "_text"), (1010, 27, "_tid"),
+  (1011, 28, "_xid"), (1012, 29, "_cid"), (1014, 1042, "_bpchar"), (1015, 1043, "_varchar"), (1016, 20, "_int8"),
+  (1017, 600, "_point"), (1018, 601, "_lseg"), (1019, 602, "_path"), (1020, 603, "_box"), (1021, 700, "_float4"),
+  (1022, 701, "_float8"), (1027, 604, "_polygon"), (1028, 26, "_oid"), (1040, 829, "_macaddr"), (1041, 869, "_inet"),
+  (1115, 1114, "_timestamp"), (1182, 1082, "_date"), (1183, 1083, "_time"), (1185, 1184, "_timestamptz"),
+  (1187, 1186, "_interval"), (1231, 1700, "_numeric"), (1270, 1266, "_timetz"), (1561, 1560, "_bit"), (1563, 1562, "_varbit"),
+  (2951, 2950, "_uuid"), (3221, 3220, "_pg_lsn"), (3643, 3614, "_tsvector"), (3645, 3615, "_tsquery"), (3807, 3802, "_jsonb"),
+  (3905, 3904, "_int4range"), (3907, 3906, "_numrange"), (3909, 3908, "_tsrange"), (3911, 3910, "_tstzrange"),
+  (3913, 3912, "_daterange"), (3927, 3926, "_int8range"), (4073, 4072, "_jsonpath")]
+
+/-- (typelem, typname) of an array type in scope -/
+def arrayType (ty : Int) : Option (Int × Bytes) := (pgArrayTypes.find? (·.1 == ty)).map fun e => (e.2.1, SqlLex.asc e.2.2)
+
+/-- the type of the elements of an ARRAY constructor in a column of type `ty`: typelem, or 0 (unknown) -/
+def elemType (ty : Int) : Int := match arrayType ty with | some (e, _) => e | none => 0
+
+/-- after the `]` of an ARRAY constructor in a column of array type `ty`: `:` `:` and the type's name (one bare word; the
+lexer reports `::` as two tokens); nothing is demanded when `ty` is not an array type -/
+def castOf (ty : Int) (ts : Toks) : Option Toks :=
+  match arrayType ty with
+  | some (_, name) => ((one (isOp 58) ts).bind (one (isOp 58))).bind (one fun t => t == .word name)
+  | none => some ts
 
 /-- pg_type.dat: json = 114, jsonb = 3802 -/
 def isJsonType (typID : Int) : Bool := typID == 114 || typID == 3802
 
-/-- a cell: NULL when the row has no value (or nil) for the column; in a json/jsonb column any other value — string,
-number, boolean, array, object — must be ONE string constant holding valid JSON with that value (a bare 'abc', 5, TRUE or
-ARRAY[…] is not a JSON document and is not accepted by such a column); elsewhere the tokens of `value` -/
+/-- ONE string constant holding valid JSON with the value `v` -/
+def jsonDoc (F : FloatFmt) (v : GoVal) (ts : Toks) : Option Toks :=
+  one (fun t => match t with | .str s => Json.textAgrees F v s | _ => false) ts
+
+/-- a PostgreSQL string is a C string: the bytes up to the first NUL -/
+def cstr (s : Bytes) : Bytes := s.takeWhile (· != 0)
+
+mutual
+/-- the tokens of one value of type `ty` (a pg_type oid; 0 = unknown) -/
+def value (F : FloatFmt) (ty : Int) : GoVal → Toks → Option Toks
+  | .nil, ts => one (isWord "null") ts
+  | .bool b, ts => if isJsonType ty then jsonDoc F (.bool b) ts else one (isWord (if b then "true" else "false")) ts
+  | .int i, ts => if isJsonType ty then jsonDoc F (.int i) ts else signedNum (decInt i) ts
+  | .f64 b, ts => if isJsonType ty then jsonDoc F (.f64 b) ts else
+      floatCell (Json.isNonFinite64 b) (b % 2 ^ 52 != 0) (b / 2 ^ 63 % 2 == 1) (F.v64 b) ts
+  | .f32 b, ts => if isJsonType ty then jsonDoc F (.f32 b) ts else
+      floatCell (Json.isNonFinite32 b) (b % 2 ^ 23 != 0) (b / 2 ^ 31 % 2 == 1) (F.v32 b) ts
+  | .str s, ts => if isJsonType ty then jsonDoc F (.str s) ts else one (fun t => t == .str (cstr s)) ts
+  | .obj kvs, ts => jsonDoc F (.obj kvs) ts
+  | .arr [], ts => if isJsonType ty then jsonDoc F (.arr []) ts else one (fun t => t == .str (SqlLex.asc "{}")) ts
+  | .arr (x :: xs), ts => if isJsonType ty then jsonDoc F (.arr (x :: xs)) ts else
+    ((((one (isWord "array") ts).bind (one (isOp 91))).bind (values F (elemType ty) (x :: xs))).bind (one (isOp 93))).bind (castOf ty)
+/-- one or more values of type `ty` separated by commas -/
+def values (F : FloatFmt) (ty : Int) : List GoVal → Toks → Option Toks
+  | [], _ => none
+  | [x], ts => value F ty x ts
+  | x :: y :: rest, ts => ((value F ty x ts).bind (one (isOp 44))).bind (values F ty (y :: rest))
+end
+
+/-- a cell: NULL when the row has no value (or nil) for the column; otherwise a value of the column's type (in a json/jsonb
+column ONE string constant holding valid JSON: a bare 'abc', 5, TRUE or ARRAY[…] is not a JSON document) -/
 def cell (F : FloatFmt) (row : Row) (col : ColumnInfo) (ts : Toks) : Option Toks :=
   match row.get col.name with
   | none => one (isWord "null") ts
-  | some .nil => one (isWord "null") ts
-  | some v =>
-    if isJsonType col.typID then one (fun t => match t with | .str s => Json.textAgrees F v s | _ => false) ts
-    else value F v ts
+  | some v => value F col.typID v ts
 
 /-- one or more `items` separated by commas (an empty list is not accepted: PostgreSQL's column lists, value lists and
 VALUES lists all need at least one item) -/
